@@ -157,6 +157,8 @@ func (in *Instance) RunStep(h *History, st *Step) error {
 		return in.Writer.WriteCSM(csm, variable)
 	case "checkpoint":
 		return in.WAL.CreateCheckpoint()
+	case "destroy":
+		return in.Cat.RemoveTimeBucket(io.NewTimeBucketKey(h.Buckets[st.Batches[0].Bucket].Key))
 	case "rotate":
 		// the rotate branch of SyncWAL (executor/wal.go:753-762), which is only reachable right after
 		// CreateCheckpoint in the same loop iteration
